@@ -460,7 +460,7 @@ def ret_agg_blocks(fn, adt, variant):
     return out
 
 
-def leaf_origins(prog, fn, op, at=None, depth=0, _seen=None, terminal_only=False):
+def leaf_origins(prog, fn, op, at=None, depth=0, _seen=None, terminal_only=False, opaque_index=False):
     """Transitive data origins of an operand: expands arithmetic, casts and identity/conversion calls down to
     params / constants / other call results."""
     out = []
@@ -471,13 +471,15 @@ def leaf_origins(prog, fn, op, at=None, depth=0, _seen=None, terminal_only=False
             continue
         seen.add(k)
         if o.kind == "bin":
-            out += leaf_origins(prog, fn, o.data["a"], o.block, depth + 1, seen, terminal_only)
-            out += leaf_origins(prog, fn, o.data["b"], o.block, depth + 1, seen, terminal_only)
+            out += leaf_origins(prog, fn, o.data["a"], o.block, depth + 1, seen, terminal_only, opaque_index)
+            out += leaf_origins(prog, fn, o.data["b"], o.block, depth + 1, seen, terminal_only, opaque_index)
         elif o.kind == "un":
-            out += leaf_origins(prog, fn, o.data["a"], o.block, depth + 1, seen, terminal_only)
+            out += leaf_origins(prog, fn, o.data["a"], o.block, depth + 1, seen, terminal_only, opaque_index)
         elif o.kind == "agg" and not (terminal_only and o.data.get("agg") == "array"):
             for x in o.data["ops"]:
-                out += leaf_origins(prog, fn, x, o.block, depth + 1, seen, terminal_only)
+                out += leaf_origins(prog, fn, x, o.block, depth + 1, seen, terminal_only, opaque_index)
+        elif o.kind == "call" and opaque_index and (o.data.get("callee") or "").startswith(("core::ops::index::", "core::slice::")):
+            out.append(o)       # slicing / indexing changes the value: do not look through it
         elif o.kind == "call" and o.data.get("args") and (
                 (o.data.get("callee") or "") in CONV_CALLEES
                 or (o.data.get("callee") or "").startswith(("core::result::Result", "core::option::Option", "core::num::", "core::ops::arith::",
@@ -489,7 +491,7 @@ def leaf_origins(prog, fn, op, at=None, depth=0, _seen=None, terminal_only=False
             if (o.data.get("callee") or "").startswith("core::ops::index::"):
                 args = args[:1]         # the indexed object, not the index
             for x in args:
-                out += leaf_origins(prog, fn, x, o.block, depth + 1, seen, terminal_only)
+                out += leaf_origins(prog, fn, x, o.block, depth + 1, seen, terminal_only, opaque_index)
         else:
             out.append(o)
     return out
